@@ -425,6 +425,42 @@ scenarios:
     min_waiting_time: 0
     requests: ["auth", "list(2)"]
 `
+		if strings.Contains(k.Name, "failing-steps") {
+			// steps that fail before anything is sent: a method the target does not have, a template
+			// that fails while it is rendered, a preprocessor that cannot resolve its source
+			y = strings.Replace(y, "scenarios:\n", `  - name: "nomethod"
+    tag: "nomethod"
+    call: "target.TargetService.Goodbye"
+    payload: '{"name": "x"}'
+  - name: "badtmpl"
+    tag: "badtmpl"
+    call: "target.TargetService.Hello"
+    payload: '{"name": "p-{{index .source.vars.a 99}}"}'
+  - name: "badpre"
+    tag: "badpre"
+    call: "target.TargetService.Hello"
+    payload: '{"name": "x"}'
+    preprocessors:
+      - type: "prepare"
+        mapping: {"v": "source.nosuch[next].id"}
+scenarios:
+  - name: "s-nomethod"
+    weight: 1
+    min_waiting_time: 0
+    requests: ["nomethod"]
+  - name: "s-badtmpl"
+    weight: 1
+    min_waiting_time: 0
+    requests: ["badtmpl"]
+  - name: "s-badpre"
+    weight: 1
+    min_waiting_time: 0
+    requests: ["badpre"]
+`, 1)
+			y = strings.Replace(y, `  - name: "s"
+    weight: 1`, `  - name: "s"
+    weight: 3`, 1)
+		}
 		_ = vkit.WriteMemAt(base+".yaml", []byte(y))
 		cleanup = append(cleanup, base+".csv", base+".yaml")
 		ammo = map[string]any{"type": "grpc/scenario", "file": base + ".yaml"}
